@@ -1661,9 +1661,12 @@ end ExpectCalc
   NOW.  Every definition is proved equal to the function of Model/Calc.lean it
   corresponds to, for all arguments and for every `Ops` (so for `exactOps`, which
   the theorems are about, and for `floatOps`, which the differential run uses);
-  `sub` is the currency table (`currency.Code.Def().Subunits`).  Not translated
-  (they stay on the shape pins of `ExpectCalc`): calculateLines, calculateLine,
-  calculateSubLine, calculateLineItemPrice, bill.calculate itself. -/
+  `sub` is the currency table (`currency.Code.Def().Subunits`).  The four
+  error-returning functions (calculateLineItemPrice, calculateSubLine,
+  calculateLine, calculateLines) are Except-valued (B20) and proved equal to the
+  model too (B20, B22; the two line functions for lines without substituted
+  sub-lines, which the model does not have).  Not translated (it stays on the
+  shape pins of `ExpectCalc` and the differential run): bill.calculate itself. -/
 namespace Src
 open GoblVerif.Generated GoblVerif.CalcSrc GoblVerif.Proofs.BillCalcSrc
 
